@@ -219,20 +219,74 @@ pub struct TreeParams {
     pub size: u32,
     pub fan: usize,
     pub finite_only: bool,
+    /// occasional documents with sizes around the powers of two that byte-level code
+    /// could trip over: 0 = never, 1 = up to ~300, 2 = up to ~70 000
+    pub big: u8,
 }
 impl TreeParams {
     pub fn quick() -> Self {
-        TreeParams { depth: 5, size: 40, fan: 6, finite_only: false }
+        TreeParams { depth: 5, size: 40, fan: 6, finite_only: false, big: 0 }
     }
     pub fn thorough() -> Self {
-        TreeParams { depth: 9, size: 120, fan: 8, finite_only: false }
+        TreeParams { depth: 9, size: 120, fan: 8, finite_only: false, big: 0 }
     }
     pub fn small() -> Self {
-        TreeParams { depth: 3, size: 12, fan: 4, finite_only: false }
+        TreeParams { depth: 3, size: 12, fan: 4, finite_only: false, big: 0 }
     }
     pub fn finite(mut self) -> Self {
         self.finite_only = true;
         self
+    }
+    pub fn with_big(mut self, level: u8) -> Self {
+        self.big = level;
+        self
+    }
+}
+
+const BIG_SIZES_1: &[usize] = &[15, 16, 17, 63, 64, 127, 128, 129, 255, 256, 257, 300];
+const BIG_SIZES_2: &[usize] = &[255, 256, 257, 1000, 4095, 4096, 4097, 32767, 32768, 65535, 65536, 65537, 70000];
+
+fn small_leaf(i: usize, seed: u16) -> M {
+    match (i + seed as usize) % 7 {
+        0 => M::Null,
+        1 => M::Bool(i % 2 == 0),
+        2 => M::Num(N::U(i as u64)),
+        3 => M::Num(N::I(-(i as i64) - 1)),
+        4 => M::Str(format!("s{i}")),
+        5 => M::Num(N::F(i as f64 + 0.5)),
+        _ => M::Str(String::new()),
+    }
+}
+
+/// a document with one large dimension; a pure function of three small parameters, so
+/// that shrinking it is cheap
+pub fn big_doc(kind: u8, size_sel: u8, seed: u16, level: u8) -> M {
+    let sizes = if level >= 2 { BIG_SIZES_2 } else { BIG_SIZES_1 };
+    let n = sizes[size_sel as usize % sizes.len()];
+    match kind % 8 {
+        // wide array of mixed small scalars
+        0 => M::Arr((0..n).map(|i| small_leaf(i, seed)).collect()),
+        // wide object
+        1 => M::Obj((0..n).map(|i| (format!("k{i:06}"), small_leaf(i, seed))).collect()),
+        // long string (ASCII or multi-byte)
+        2 => M::Str(if seed % 2 == 0 { "x".repeat(n) } else { "é".repeat(n / 2 + 1) }),
+        // deep nesting, alternating arrays and objects (kept well below any stack limit)
+        3 => {
+            let d = [10usize, 16, 17, 31, 32, 33, 64, 100][size_sel as usize % 8];
+            let mut m = small_leaf(seed as usize, seed);
+            for i in 0..d {
+                m = if (i + seed as usize) % 2 == 0 { M::Arr(vec![M::Null, m]) } else { M::Obj([("k".to_string(), m), ("a".to_string(), M::Bool(true))].into_iter().collect()) };
+            }
+            m
+        }
+        // array whose LAST element follows a long payload (offsets beyond 64 KiB)
+        4 => M::Arr(vec![M::Str("y".repeat(n)), M::Arr(vec![M::Num(N::U(7))]), M::Str("tail".into())]),
+        // object with a long key and a long value before other members
+        5 => M::Obj([("a".repeat(n), M::Null), ("b".to_string(), M::Str("z".repeat(n))), ("c".to_string(), M::Arr(vec![M::Bool(false)]))].into_iter().collect()),
+        // wide array of small containers
+        6 => M::Arr((0..n.min(20000)).map(|i| if i % 2 == 0 { M::Arr(vec![small_leaf(i, seed)]) } else { M::Obj([(format!("k{}", i % 5), small_leaf(i, seed))].into_iter().collect()) }).collect()),
+        // heavy duplication
+        _ => M::Arr((0..n).map(|i| small_leaf(i % 3, seed)).collect()),
     }
 }
 
@@ -267,6 +321,16 @@ pub fn arb_tree(p: TreeParams) -> BoxedStrategy<M> {
 /// a document that is a container at top level most of the time
 pub fn arb_doc(p: TreeParams) -> BoxedStrategy<M> {
     let fan = p.fan;
+    if p.big > 0 {
+        let level = p.big;
+        let mut q = p;
+        q.big = 0;
+        return prop_oneof![
+            250 => arb_doc(q),
+            1 => (any::<u8>(), any::<u8>(), any::<u16>()).prop_map(move |(k, s, seed)| big_doc(k, s, seed, level)),
+        ]
+        .boxed();
+    }
     prop_oneof![
         1 => arb_scalar(p.finite_only),
         1 => arb_tree(p),
